@@ -1558,3 +1558,207 @@ Proof.
   intros ts t id Hn Ht Hin.
   destruct (step_good (run init ts).1 t Ht (run_good ts init Hn Good_init)) as [_ H]. exact (H id Hin).
 Qed.
+
+(* ---------- ids are unique across all five stores; terminal records are never touched again ---------- *)
+Definition terminal (p : prec) : Prop := p_store p = SFinalized \/ p_store p = SFinFailed.
+
+(* what a successful handler may do: it rewrites at most one record, and never a terminal one *)
+Definition nt_update (s s' : state) : Prop :=
+  g_props s' = g_props s \/
+  exists id p', g_props s' = <[id := p']> (g_props s) /\
+    match g_props s !! id with Some p => ~ terminal p | None => True end.
+
+Definition term_kept (s s' : state) : Prop :=
+  forall id p, g_props s !! id = Some p -> terminal p -> g_props s' !! id = Some p.
+
+Lemma nt_update_kept s s' : nt_update s s' -> term_kept s s'.
+Proof.
+  intros [Heq | (i & p' & Heq & Hm)] id p Hp Ht; rewrite Heq; [exact Hp|].
+  destruct (decide (id = i)) as [->|Hne].
+  - rewrite Hp in Hm. contradiction.
+  - rewrite lookup_insert_ne by congruence. exact Hp.
+Qed.
+
+Lemma term_kept_trans s1 s2 s3 : term_kept s1 s2 -> term_kept s2 s3 -> term_kept s1 s3.
+Proof. intros H12 H23 id p Hp Ht. apply H23; auto. Qed.
+
+Ltac nt_active E E1 := right; eexists; eexists; (split; [reflexivity|]); rewrite E; unfold terminal; rewrite E1;
+  intros [X|X]; discriminate.
+
+Lemma create_nt : forall s e id ty pr amt fdl vdl goal pass cv s' ev,
+  h_create s e id ty pr amt fdl vdl goal pass cv = Some (s', ev) -> nt_update s s' /\ g_props s !! id = None.
+Proof.
+  intros s e id ty pr amt fdl vdl goal pass cv s' ev H. unfold h_create in H. cbv zeta in H.
+  repeat match type of H with (if ?c then None else _) = _ =>
+    match type of c with bool => destruct c; [discriminate|] end end.
+  destruct (g_props s !! id) eqn:E; [discriminate|].
+  destruct (bal s pr - amt <? 0); [discriminate|]. inversion H; subst; clear H.
+  split; [|reflexivity]. right. eexists. eexists. split; [reflexivity|]. rewrite E. exact I.
+Qed.
+
+Lemma fund_nt : forall s e id f amt s' ev, h_fund s e id f amt = Some (s', ev) -> nt_update s s'.
+Proof.
+  intros s e id f amt s' ev H. unfold h_fund in H.
+  destruct (amt <=? 0); [discriminate|].
+  destruct (g_props s !! id) as [p|] eqn:E; [|discriminate].
+  destruct (bool_decide (p_store p = SActive)) eqn:E1; simpl in H; [|discriminate]. apply bool_decide_eq_true in E1.
+  destruct (p_fdl p <? g_h s); [discriminate|].
+  destruct (bool_decide (p_status p = StFunding)); simpl in H; [|discriminate].
+  destruct (bal s f - amt <? 0); [discriminate|]. inversion H; subst; clear H. nt_active E E1.
+Qed.
+
+Lemma vote_nt : forall s e id v o s' ev, h_vote s e id v o = Some (s', ev) -> nt_update s s'.
+Proof.
+  intros s e id v o s' ev H. unfold h_vote in H.
+  destruct (g_props s !! id) as [p|] eqn:E; [|discriminate].
+  destruct (bool_decide (p_store p = SActive)) eqn:E1; simpl in H; [|discriminate]. apply bool_decide_eq_true in E1.
+  destruct (bool_decide (p_status p = StVoting)); simpl in H; [|discriminate].
+  destruct (p_vdl p <? g_h s); [discriminate|].
+  destruct (bool_decide (v ∈ e_vals e)); simpl in H; [|discriminate].
+  destruct (vote_update v o (p_votes p)); [|discriminate].
+  destruct (p_snapblk p =? g_blk s); [discriminate|].
+  inversion H; subst; clear H. nt_active E E1.
+Qed.
+
+Lemma cancel_nt : forall s id pr s' ev, h_cancel s id pr = Some (s', ev) -> nt_update s s'.
+Proof.
+  intros s id pr s' ev H. unfold h_cancel in H.
+  destruct (g_props s !! id) as [p|] eqn:E; [|discriminate].
+  destruct (bool_decide (p_store p = SActive)) eqn:E1; simpl in H; [|discriminate]. apply bool_decide_eq_true in E1.
+  destruct (bool_decide (p_status p = StFunding)); simpl in H; [|discriminate].
+  destruct (p_fdl p <? g_h s); [discriminate|].
+  destruct (N.eqb (p_proposer p) pr); simpl in H; [|discriminate].
+  inversion H; subst; clear H. nt_active E E1.
+Qed.
+
+Lemma expire_nt : forall s id s' ev, h_expire s id = Some (s', ev) -> nt_update s s'.
+Proof.
+  intros s id s' ev H. unfold h_expire in H.
+  destruct (g_props s !! id) as [p|] eqn:E; [|discriminate].
+  destruct (bool_decide (p_store p = SActive)) eqn:E1; simpl in H; [|discriminate]. apply bool_decide_eq_true in E1.
+  destruct (bool_decide (p_status p = StVoting)); simpl in H; [|discriminate].
+  destruct (g_h s <=? p_vdl p); [discriminate|].
+  inversion H; subst; clear H. nt_active E E1.
+Qed.
+
+Lemma withdraw_nt : forall s id f amt ben s' ev, h_withdraw s id f amt ben = Some (s', ev) -> nt_update s s'.
+Proof.
+  intros s id f amt ben s' ev H. unfold h_withdraw in H.
+  destruct (g_props s !! id) as [p|] eqn:E; [|discriminate].
+  destruct (bool_decide (p_store p = SActive) || bool_decide (p_store p = SFailed)) eqn:Est; simpl in H; [|discriminate].
+  destruct (amt <=? 0); [discriminate|].
+  assert (Hnt : ~ terminal p).
+  { apply orb_prop in Est. unfold terminal.
+    destruct Est as [X|X]; apply bool_decide_eq_true in X; rewrite X; intros [Y|Y]; discriminate. }
+  destruct (refundable (p_outcome p)).
+  - destruct (funded_visible (g_blk s) p f); [|discriminate].
+    destruct (alookup f (p_indiv p)); [|discriminate].
+    destruct (_ - amt <? 0); [discriminate|]. destruct (p_total p - amt <? 0); [discriminate|].
+    inversion H; subst; clear H. right. eexists. eexists. split; [reflexivity|]. rewrite E. exact Hnt.
+  - destruct ((p_goal p <=? p_total p) || (g_h s <=? p_fdl p)); [discriminate|].
+    cbv zeta in H. simpl in H.
+    destruct (funded_visible (g_blk s) _ f); [|discriminate].
+    destruct (alookup f (p_indiv p)); [|discriminate]. simpl in H.
+    destruct (_ - amt <? 0); [discriminate|]. destruct (p_total p - amt <? 0); [discriminate|].
+    inversion H; subst; clear H. right. eexists. eexists. split; [reflexivity|]. rewrite E. exact Hnt.
+Qed.
+
+Lemma finalize_nt : forall s e id s' ev, h_finalize s e id = Some (s', ev) -> nt_update s s'.
+Proof.
+  intros s e id s' ev H. unfold h_finalize, fin_move in H.
+  destruct (g_props s !! id) as [p|] eqn:E; [|discriminate].
+  destruct (8 <=? p_extra p). { inversion H; subst. left. reflexivity. }
+  destruct (p_store p) eqn:Es; try discriminate;
+    try (inversion H; subst; left; reflexivity).
+  all: destruct (bool_decide (p_status p = StCompleted)) eqn:E2; simpl in H; [|discriminate].
+  all: destruct (if p_snapblk p =? g_blk s then [] else p_votes p) as [|v0 vr] eqn:Ev; [discriminate|].
+  all: destruct (tally (p_votes p) (p_pass p)); try discriminate.
+  all: try (destruct (bool_decide (p_type p = TConfig) && bool_decide (id ∈ e_cfgfail e))).
+  all: try (destruct (distribute _ e id p _) as [[s1 paid] bad] eqn:Ed; apply distribute_props in Ed).
+  all: simpl in H; inversion H; subst; clear H.
+  all: right; exists id; eexists.
+  all: (split; [ rewrite ?props_anom; simpl; rewrite ?Ed; try destruct (bool_decide (p_type p = TConfig)); reflexivity |]).
+  all: rewrite E; unfold terminal; rewrite Es; intros [X|X]; discriminate.
+Qed.
+
+Lemma run_queue_kept : forall (h : state -> N -> hres) q s,
+  (forall st id st' ev, h st id = Some (st', ev) -> nt_update st st') -> term_kept s (run_queue h q s).1.
+Proof.
+  intros h q s Hh. unfold run_queue.
+  assert (G : forall q acc, term_kept s acc.1 ->
+            term_kept s (fold_left (fun acc id => match h acc.1 id with
+                                                  | Some (s', ev) => (s', acc.2 ++ ev)
+                                                  | None => acc end) q acc).1).
+  { induction q0 as [|id q0 IH]; intros acc Hacc; simpl; [exact Hacc|].
+    apply IH. destruct (h acc.1 id) as [[st' ev]|] eqn:Eh; [|exact Hacc].
+    simpl. eapply term_kept_trans; [exact Hacc|]. apply nt_update_kept. eapply Hh; eauto. }
+  apply G. intros id p Hp _. exact Hp.
+Qed.
+
+Lemma step_kept s t : term_kept s (step s t).1.1.
+Proof.
+  unfold step.
+  assert (Hrefl : term_kept s s) by (intros id p Hp _; exact Hp).
+  assert (Hc : forall r, (forall s1 ev, r = Some (s1, ev) -> nt_update s s1) ->
+               term_kept s (match charge r (t_payer t) (t_fee t) with
+                            | Some (s', ev) => (s', true, ev) | None => (s, false, []) end).1.1).
+  { intros r Hr. destruct (charge r (t_payer t) (t_fee t)) as [[s' ev]|] eqn:Ec; simpl; [|exact Hrefl].
+    apply charge_props in Ec. destruct Ec as (s1 & -> & Heq).
+    intros id p Hp Ht. rewrite Heq. eapply nt_update_kept; eauto. }
+  destruct (t_op t) eqn:Eo.
+  - exact Hrefl.
+  - apply Hc. intros s1 ev H. eapply create_nt; eauto.
+  - apply Hc. intros; eapply fund_nt; eauto.
+  - apply Hc. intros; eapply vote_nt; eauto.
+  - apply Hc. intros; eapply cancel_nt; eauto.
+  - apply Hc. intros; eapply withdraw_nt; eauto.
+  - destruct (h_expire s id) as [[s' ev]|] eqn:Eh; simpl; [|exact Hrefl].
+    apply nt_update_kept. eapply expire_nt; eauto.
+  - destruct (h_finalize s (t_env t) id) as [[s' ev]|] eqn:Eh; simpl; [|exact Hrefl].
+    apply nt_update_kept. eapply finalize_nt; eauto.
+  - unfold end_block.
+    pose proof (run_queue_kept h_expire (g_qexp s) s (fun st i st' ev H => expire_nt st i st' ev H)) as K1.
+    destruct (run_queue h_expire (g_qexp s) s) as [s1 ev1]. simpl in K1.
+    pose proof (run_queue_kept (fun st id => h_finalize st (t_env t) id) (g_qfin s) s1
+                  (fun st i st' ev H => finalize_nt st (t_env t) i st' ev H)) as K2.
+    destruct (run_queue (fun st id => h_finalize st (t_env t) id) (g_qfin s) s1) as [s2 ev2]. simpl in *.
+    eapply term_kept_trans; eauto.
+  - apply Hc. intros s1 ev H. inversion H; subst. left. reflexivity.
+Qed.
+
+Lemma run_kept : forall ts s, term_kept s (run s ts).1.
+Proof.
+  induction ts as [|t ts IH]; intros s; simpl; [intros id p Hp _; exact Hp|].
+  pose proof (step_kept s t) as K1. destruct (step s t) as [[s1 ok] ev]. simpl in K1.
+  specialize (IH s1). destruct (run s1 ts) as [s2 ev2]. simpl in *. eapply term_kept_trans; eauto.
+Qed.
+
+(* terminal states are never left: once a proposal is in the finalized or the finalize-failed store, no history
+   changes its record in any way (from ANY state, no invariant needed) *)
+Theorem terminal_never_left : forall s ts id p, g_props s !! id = Some p ->
+  p_store p = SFinalized \/ p_store p = SFinFailed -> g_props (run s ts).1 !! id = Some p.
+Proof. intros s ts id p Hp Ht. exact (run_kept ts s id p Hp Ht). Qed.
+
+(* ids are unique across all five stores: along every history, an id that has ever been created (whatever store
+   holds it now) is never accepted by PROPOSAL_CREATE again, whoever sends it with whatever parameters *)
+Theorem id_never_created_twice : forall ts1 ts2 id ty pr amt fdl vdl goal pass cv e payer fee,
+  (1 <= rank_of (run init ts1).1 id)%nat ->
+  let s := (run (run init ts1).1 ts2).1 in
+  step s (mkTx (OCreate id ty pr amt fdl vdl goal pass cv) e payer fee) = (s, false, []).
+Proof.
+  intros ts1 ts2 id ty pr amt fdl vdl goal pass cv e payer fee Hr s.
+  pose proof (stage_monotone ts1 ts2 id) as Hm. fold s in Hm.
+  assert (Hex : exists p, g_props s !! id = Some p).
+  { destruct (g_props s !! id) as [p|] eqn:Ep; [exists p; reflexivity|]. exfalso.
+    unfold rank_of at 2 in Hm. rewrite Ep in Hm. lia. }
+  destruct Hex as [p Hp]. unfold step. simpl.
+  assert (Hc : h_create s e id ty pr amt fdl vdl goal pass cv = None).
+  { unfold h_create. cbv zeta. rewrite Hp.
+    repeat match goal with |- (if ?c then None else _) = None => destruct c; [reflexivity|] end. reflexivity. }
+  rewrite Hc. reflexivity.
+Qed.
+
+(* and a successful create always concerns an id that no store holds *)
+Theorem create_only_fresh : forall s e id ty pr amt fdl vdl goal pass cv s' ev,
+  h_create s e id ty pr amt fdl vdl goal pass cv = Some (s', ev) -> g_props s !! id = None.
+Proof. intros. eapply create_nt; eauto. Qed.
